@@ -209,7 +209,7 @@ func (v *Verifier) prelude(theory string) string {
 			}
 		}
 	}
-	fmt.Fprintf(&sb, "(declare-fun unixnano (Int) Int)\n(declare-fun payf64 (Int) F64)\n(assert (forall ((x F64)) (! (= (payf64 (f64pay x)) x) :pattern ((f64pay x)))))\n")
+	fmt.Fprintf(&sb, "(declare-fun unixnano (Int) Int)\n(declare-fun payf64 (Int) F64)\n(assert (forall ((x F64)) (! (= (payf64 (f64pay x)) x) :pattern ((f64pay x)))))\n(declare-fun paystr (Int) String)\n(assert (forall ((x String)) (! (= (paystr (strpay x)) x) :pattern ((strpay x)))))\n")
 	fmt.Fprintf(&sb, "(assert (forall ((x Int)) (! (and (<= (- 9223372036854775808) (unixnano x)) (<= (unixnano x) 9223372036854775807)) :pattern ((unixnano x)))))\n")
 	uints := []types.BasicKind{types.Uint8, types.Uint16, types.Uint32, types.Uint}
 	ints := []types.BasicKind{types.Int8, types.Int16, types.Int32, types.Int}
